@@ -1,6 +1,6 @@
 #!/bin/sh
 # every harmless rewrite × every check (quick): all must exit 0. Uses a scratch worktree (VERIF_REPO);
-# C20 regenerates Lean facts and is therefore run on /repo itself (apply / revert).
+# C20 (--with-c20 / --only-c20) regenerates Lean facts inside the harness copy: use one lane per copy.
 WT=${HWT:-/tmp/wt/s1}
 HOUT=${HOUT:-/tmp/wt/outh}
 V=${VERIF_DIR:-/verif}
@@ -8,13 +8,15 @@ V=${VERIF_DIR:-/verif}
 for h in $V/seeded/harmless/${HPAT:-*}.diff; do
   git -C $WT checkout -q -- . ; git -C $WT apply "$h" || { echo "$(basename $h): does not apply"; continue; }
   bad=""
-  for n in 01 02 03 04 05 06 07 08 09 10 11 12 13 14 15 16 17 18 19; do
+  LIST="01 02 03 04 05 06 07 08 09 10 11 12 13 14 15 16 17 18 19"
+  [ "$1" = "--only-c20" ] && LIST=""
+  for n in $LIST; do
     out=$(cd $V && VERIF_REPO=$WT VERIF_OUT=$HOUT VERIF_SKIP_BUILD=1 VERIF_JOBS=6 ./check C$n quick 2>&1); rc=$?
     [ $rc -ne 0 ] && bad="$bad C$n(rc=$rc)"
   done
-  if [ "$1" = "--with-c20" ]; then
-    git -C /repo apply "$h" && { out=$(cd $V && VERIF_OUT=$HOUT ./check C20 quick 2>&1); rc=$?; [ $rc -ne 0 ] && bad="$bad C20(rc=$rc)"; }
-    git -C /repo checkout -- .
+  if [ "$1" = "--with-c20" ] || [ "$1" = "--only-c20" ]; then
+    # C20 regenerates Lean facts inside $V/lean: one lane at a time per copy of the harness
+    out=$(cd $V && VERIF_REPO=$WT VERIF_OUT=$HOUT ./check C20 quick 2>&1); rc=$?; [ $rc -ne 0 ] && bad="$bad C20(rc=$rc)"
   fi
   echo "$(basename $h): ${bad:-all checks quiet}"
 done
